@@ -101,7 +101,7 @@ def gen_cases(rng, tier):
                     else:
                         ops.append([name])
                 # read-only sweep, then each mutating op followed by full observation
-                items.append(build(dict(kind="B", store=store % 4, start=start, len=ln, data=data, ops=ops)))
+                items.append(build(dict(kind="B", store=store % 5, start=start, len=ln, data=data, ops=ops)))
                 store += 1
                 obs_all = [["iter"], ["slices"], ["len"], ["full"], ["empty"]] + [["get", i] for i in range(cap + 1)]
                 muts = [["push", 7], ["pop"], ["map", 1000000], ["mapslices", 2000000], ["extend", 1, 2, 3],
@@ -111,7 +111,7 @@ def gen_cases(rng, tier):
                 muts += [["iternth", k] for k in range(0, cap + 1)] + [["iterrev"], ["iterlast"]]
                 muts += [["set", i, 99] for i in range(0, cap + 2)] + [["idxset", i, 98] for i in range(0, cap + 2)]
                 for m in muts:
-                    items.append(build(dict(kind="B", store=store % 4, start=start, len=ln, data=data,
+                    items.append(build(dict(kind="B", store=store % 5, start=start, len=ln, data=data,
                                             ops=[m] + obs_all)))
                     store += 1
         for first in range(0, cap + 2):
@@ -121,7 +121,7 @@ def gen_cases(rng, tier):
             muts += [["set", i, 99] for i in range(0, 2 * cap + 1)] + [["idxset", i, 98] for i in range(0, cap + 1)]
             muts += [["idx", i] for i in range(0, 2 * cap + 1)]
             for m in muts:
-                items.append(build(dict(kind="F", store=store % 4, first=first, data=data, ops=[m] + obs_all)))
+                items.append(build(dict(kind="F", store=store % 5, first=first, data=data, ops=[m] + obs_all)))
                 store += 1
     n_exh = len(items)
     # 2. random histories from random raw states
@@ -139,10 +139,10 @@ def gen_cases(rng, tier):
         if kind == "B":
             start = r.below(cap) if valid else r.range(0, cap + 1)
             ln = r.range(0, cap) if valid else r.range(0, cap + 2)
-            items.append(build(dict(kind="B", store=r.below(4), start=start, len=ln, data=data, ops=ops)))
+            items.append(build(dict(kind="B", store=r.below(5), start=start, len=ln, data=data, ops=ops)))
         else:
             first = r.below(cap) if valid else r.range(0, cap + 1)
-            items.append(build(dict(kind="F", store=r.below(4), first=first, data=data, ops=ops)))
+            items.append(build(dict(kind="F", store=r.below(5), first=first, data=data, ops=ops)))
     return items, n_exh
 
 
@@ -231,7 +231,7 @@ def finish(rep, info, n, nontriv, dist, samples, bad=()):
                                            "modelled, not verified: Rust slices as lists, usize as nat (no index near 2^64), mem::replace/ptr::read/ptr::write as list updates"],
         "theorems": th, "axioms_reported": info.get("axioms", []),
         "evaluations": n, "distinct_nontrivial": nontriv,
-        "rule": "every raw (start,len)/(first) state of capacities 0..6 (quick) x each operation followed by a full observation sweep, plus random histories (1500 quick) from random raw states over 4 storage kinds; non-trivial = an evicting push or a wrapped slice pair occurs (Bounded), first != 0 (Fixed)",
+        "rule": "every raw (start,len)/(first) state of capacities 0..6 (quick) x each operation followed by a full observation sweep, plus random histories (1500 quick) from random raw states over 5 storage kinds (Vec, Box<[T]>, &mut [T], [T; N], Vec with spare capacity); non-trivial = an evicting push or a wrapped slice pair occurs (Bounded), first != 0 (Fixed)",
         "samples": samples, "input_distribution": dist, "disagreements": len(bad),
         "explanation": "theorems: refinement of the model to the ideal queue/delay line for all capacities, states and histories; tie: the model's executable definitions run by coqc on the same cases as the real crate, all observations compared exactly",
     }
